@@ -3,6 +3,7 @@ import Driver.Ops.C03
 import PqModel.Convert
 import PqModel.ConvertChunks
 import PqModel.ConvertEntry
+import PqModel.ConvertViews
 
 /-! Ops for C12: schema conversion of one row.
     Named node text: `F` leaf | `G(<name>:<rp><node>,...)` group (`G()` is not used), rp = `q` required,
@@ -35,6 +36,63 @@ partial def parsePFields : List Char → Option (PFields × List Char)
       | _ => none
     | _ => none
 end
+
+/-- View text of `convert.views`: `L<n>` transparent leaf of n rows (rows numbered consecutively
+    over the whole text), `N<n>` leaf without the marker, `C(<v>)` ConvertRowGroup (f = +1000000,
+    g = +2000000), `M(<v>,...)` multi row group, `R<off>.<len>(<v>)` = `rangeOf off len v`.
+    Result: the view, the flag `inOrder` of every text node in preorder, the next row id. -/
+partial def parseView (cs : List Char) (next : Nat) :
+    Option (PqModel.ConvertViews.View Nat × List String × List Char × Nat) :=
+  let b (x : Bool) : String := if x then "1" else "0"
+  let fl (v : PqModel.ConvertViews.View Nat) : String := b (PqModel.ConvertViews.inOrder false v)
+  let leaf (t : Bool) (r : List Char) :=
+    let (ds, r) := Driver.Ops.C03.takeDigits r []
+    match (String.ofList ds).toNat? with
+    | some n =>
+      let rs := (List.range n).map (· + next)
+      let v : PqModel.ConvertViews.View Nat := .leaf t rs rs
+      some (v, [fl v], r, next + n)
+    | none => none
+  match cs with
+  | 'L' :: r => leaf true r
+  | 'N' :: r => leaf false r
+  | 'C' :: '(' :: r => do
+    let (v, fs, r, nx) ← parseView r next
+    match r with
+    | ')' :: r =>
+      let c : PqModel.ConvertViews.View Nat := .conv (· + 1000000) (· + 2000000) v
+      some (c, fl c :: fs, r, nx)
+    | _ => none
+  | 'R' :: r => do
+    let (ds, r) := Driver.Ops.C03.takeDigits r []
+    let off ← (String.ofList ds).toNat?
+    match r with
+    | '.' :: r =>
+      let (ds, r) := Driver.Ops.C03.takeDigits r []
+      let len ← (String.ofList ds).toNat?
+      match r with
+      | '(' :: r => do
+        let (v, fs, r, nx) ← parseView r next
+        match r with
+        | ')' :: r =>
+          let c := PqModel.ConvertViews.rangeOf off len v
+          some (c, fl c :: fs, r, nx)
+        | _ => none
+      | _ => none
+    | _ => none
+  | 'M' :: '(' :: r =>
+    let rec members (r : List Char) (next : Nat) (acc : List (PqModel.ConvertViews.View Nat)) (fs : List String) :
+        Option (List (PqModel.ConvertViews.View Nat) × List String × List Char × Nat) := do
+      let (v, f, r, nx) ← parseView r next
+      match r with
+      | ',' :: r => members r nx (acc ++ [v]) (fs ++ f)
+      | ')' :: r => some (acc ++ [v], fs ++ f, r, nx)
+      | _ => none
+    do
+      let (vs, fs, r, nx) ← members r next [] []
+      let m : PqModel.ConvertViews.View Nat := .multi (vs.foldr .cons .nil)
+      some (m, fl m :: fs, r, nx)
+  | _ => none
 
 /-- ops of `convert.fwd`: `r<cap>` = ReadRows with a buffer of `cap` rows, `s<row>` = SeekToRow -/
 def fwdOps (st : Fwd Nat) (dead : Bool) : List String → List String
@@ -103,6 +161,15 @@ def handle (toks : List String) : Option String :=
         | some (c, k) => s!"{c}{k}"
         | none => "eof")
     | none => "bad-op"
+  | ["convert.views", text] => some <|
+    -- `ok <flags in preorder, comma separated> | <rows == sem 0/1> | <sem, ids without the conversion tags>`
+    match parseView text.toList 0 with
+    | some (v, fs, [], _) =>
+      let b (x : Bool) : String := if x then "1" else "0"
+      let rs := PqModel.ConvertViews.rows false v
+      let sm := PqModel.ConvertViews.sem v
+      s!"ok {",".intercalate fs} | {b (rs == sm)} | {showList toString (sm.map (· % 1000000))}"
+    | _ => "bad-op"
   | ["convert.fwd", total, ops] => some <|
     match total.toNat? with
     | some n => "ok " ++ ";".intercalate (fwdOps { rest := List.range n, seek := 0, index := 0 } false (ops.splitOn ";"))
